@@ -1,9 +1,16 @@
 import ConfModel.Driver.Common
 import ConfModel.Model.WireChecks
 import ConfModel.Spec.WireChecks
+import ConfModel.Model.ConnectJson
+import ConfModel.Spec.ConnectJson
 namespace ConfModel.Driver.C13
 open Lean ConfModel.Driver ConfModel.WireChecks ConfModel.WireChecksSpec
 open ConfModel.ServerTimeout (Bytes)
+open ConfModel.ConnectJson hiding Json bytesLt
+open ConfModel.ConnectJsonSpec
+
+/-- the parsed documents of the Connect JSON examiners (duplicate keys kept) -/
+abbrev CJ := ConfModel.ConnectJson.Json
 
 def EsFb.cls : EsFb → String
   | .missingColon => "es:missing-colon" | .invalidName => "es:invalid-name"
@@ -84,6 +91,161 @@ def judgeBlock (block : Bytes) (e : Examined) : Bool × Json × List EsFb × Lis
 def unknownClasses (e : Examined) : List String :=
   (e.fb1.filter (fun s => (esOf s).isNone)) ++ (e.fb2.filter (fun s => (stOf s).isNone))
 
+
+/-! ### Connect JSON examiners -/
+
+def DebugFb.cls : DebugFb → String
+  | .unresolved => "cd:debug-unresolved" | .value => "cd:debug-value" | .json => "cd:debug-json"
+  | .type => "cd:debug-type" | .mismatch => "cd:debug-mismatch"
+
+def allDebug : List DebugFb := [.unresolved, .value, .json, .type, .mismatch]
+
+def CFb.cls : CFb → String
+  | .jsonType => "json:type" | .jsonNull => "json:null" | .dupKey => "json:duplicate-key"
+  | .codeType => "ce:code-type" | .codeUnknown => "ce:code-unknown" | .messageType => "ce:message-type"
+  | .detailsType => "ce:details-type" | .invalidKey => "ce:invalid-key" | .missingCode => "ce:missing-code"
+  | .dTypeType => "cd:type-type" | .dTypeInvalid => "cd:type-invalid" | .dValueType => "cd:value-type"
+  | .dValueBase64 => "cd:value-base64" | .dInvalidKey => "cd:invalid-key"
+  | .dMissingType => "cd:missing-type" | .dMissingValue => "cd:missing-value"
+  | .dDebug f => DebugFb.cls f
+  | .sErrorType => "cs:error-type" | .sMetadataType => "cs:metadata-type" | .sMetaName => "cs:meta-name"
+  | .sMetaArray => "cs:meta-array" | .sMetaValueType => "cs:meta-value-type" | .sMetaValue => "cs:meta-value"
+  | .sInvalidKey => "cs:invalid-key"
+
+def allCFb : List CFb := [.jsonType, .jsonNull, .dupKey, .codeType, .codeUnknown, .messageType,
+  .detailsType, .invalidKey, .missingCode, .dTypeType, .dTypeInvalid, .dValueType, .dValueBase64,
+  .dInvalidKey, .dMissingType, .dMissingValue, .sErrorType, .sMetadataType, .sMetaName, .sMetaArray,
+  .sMetaValueType, .sMetaValue, .sInvalidKey] ++ allDebug.map .dDebug
+
+def cfbOf (s : String) : Option CFb := allCFb.find? (fun f => CFb.cls f == s)
+
+/-- the harness's encoding of a parsed document: null, bool, number, {"s": hex} for a string,
+an array, {"o": [[hex key, value], ..]} for an object (document order, duplicates kept) -/
+partial def cjOf (j : Json) : CJ :=
+  match j with
+  | .null => .null
+  | .bool b => .bool b
+  | .num _ => .num
+  | .str _ => .null
+  | .arr a => .arr (a.toList.map cjOf)
+  | .obj _ =>
+    let s := field j "s"
+    if !isNull s then .str (unhex (str s))
+    else .obj ((arr (field j "o")).map fun kv =>
+      match arr kv with
+      | [k, v] => (unhex (str k), cjOf v)
+      | _ => ([], .null))
+
+structure OracleEntry where
+  i : Nat
+  type : Bytes
+  data : Bytes
+  fb : Option DebugFb
+
+def oracleEntries (j : Json) : List OracleEntry :=
+  (arr j).map fun e =>
+    { i := nat (field e "i"), type := unhex (str (field e "type")), data := unhex (str (field e "data")),
+      fb := ((strList (field e "fb")).head?).bind (fun c => allDebug.find? (fun f => DebugFb.cls f == c)) }
+
+/-- the oracle the harness computed with the real protojson comparison; `dflt` where it has
+no entry -/
+def oracleOf (es : List OracleEntry) (dflt : Option DebugFb) : DebugOracle := fun i t d =>
+  match es.find? (fun e => e.i == i && e.type == t && e.data == d) with
+  | some e => e.fb
+  | none => dflt
+
+/-- (code, message, details) of a document of the shape connect-go's error writer produces -/
+def ownErrorOf (doc : CJ) : Option (Nat × Bytes × List Detail) :=
+  match doc with
+  | .obj fs =>
+    match lookup fs jkCode with
+    | some (.str c) =>
+      let code := (codeNames.findIdx? (· == c)).map (· + 1)
+      let msg := (strOf (lookup fs jkMessage)).getD []
+      let details : List Detail := match lookup fs jkDetails with
+        | some (.arr xs) => xs.map (fun d => match d with
+          | .obj ds =>
+            { type := (strOf (lookup ds jkType)).getD [],
+              value := ((strOf (lookup ds jkValue)).bind rawStdDecode).getD [],
+              debug := lookup ds jkDebug }
+          | _ => { type := [], value := [], debug := none })
+        | _ => []
+      code.map (fun c => (c, msg, details))
+    | _ => none
+  | _ => none
+
+def ownMetadataOf (m : Option CJ) : List (Bytes × List Bytes) :=
+  match m with
+  | some (.obj ms) => ms.map (fun kv => (kv.1, match kv.2 with
+      | .arr vs => vs.map (fun v => (strOf (some v)).getD [])
+      | _ => []))
+  | _ => []
+
+/-- the document is the value of the encoder model on some (code 1..16, message, details)
+[and metadata] satisfying the hypotheses of `own_connect_error_clean` /
+`own_connect_end_stream_clean`; the second component says why not -/
+def ownImage (endStream : Bool) (dbg : DebugOracle) (doc : CJ) : Bool × String :=
+  if !endStream then
+    match ownErrorOf doc with
+    | some (code, msg, details) =>
+      if !(encodeError code msg details).beq doc then (false, "not the encoder model's document")
+      else if !detailsFine dbg 0 details then (false, "details outside the hypotheses")
+      else (true, "")
+    | none => (false, "no code name")
+  else
+    match doc with
+    | .obj fs =>
+      let err := (lookup fs jkError).bind ownErrorOf
+      let md := ownMetadataOf (lookup fs jkMetadata)
+      if !(encodeEndStream err md).beq doc then (false, "not the encoder model's document")
+      else if !(match err with | some (_, _, details) => detailsFine dbg 0 details | none => true) then
+        (false, "details outside the hypotheses")
+      else if !metadataFine md then (false, "metadata outside the hypotheses")
+      else (true, "")
+    | _ => (false, "not an object")
+
+def judgeJSON (endStream : Bool) (kind : String) (impl : Json) : Verdict :=
+  let fb := strList (field impl "fb")
+  let other := fb.filter (·.startsWith "other:")
+  let mutCls := if kind.startsWith "mut:" then (kind.drop 4).toString else ""
+  let cls := if kind.startsWith "mut:" then (if fb.contains mutCls then "mut-exact-class" else "mut-other-class") else kind
+  if !other.isEmpty then
+    { agree := false, holds := true, nontrivial := false, why := s!"unclassified message {other}", cls := cls } else
+  -- the generator's own expectation: silence on the server's documents, some feedback on every
+  -- injected malformation
+  let genHolds : Bool × String :=
+    if kind == "own" then (fb.isEmpty, s!"feedback on a well-formed document written by the repository's own server: {fb}")
+    else if kind.startsWith "mut:" then (!fb.isEmpty, s!"injected malformation {kind} not reported")
+    else (true, "")
+  if !bool (field impl "tokenized") then
+    -- not JSON (or a token encoding/json cannot read): the opaque class, and nothing else
+    let agree := fb == ["json:syntax"] || fb == ["json:type"]
+    let holds := !fb.isEmpty && genHolds.1
+    { agree := agree, holds := holds, nontrivial := kind != "random", model := toJson ["json:syntax"],
+      why := if holds then "" else if fb.isEmpty then "a document that is not JSON is not reported" else genHolds.2,
+      cls := cls } else
+  let doc := cjOf (field impl "parsed")
+  let entries := oracleEntries (field impl "oracle")
+  let dbg := oracleOf entries none
+  let run (o : DebugOracle) := if endStream then examineConnectEndStream o doc else examineConnectError o doc
+  let m := run dbg
+  -- a debug comparison the model reaches but the harness has no outcome for
+  let oracleMissing := run (oracleOf entries (some .mismatch)) != m
+  let mCls := sortStrings (m.map CFb.cls)
+  let known := fb.filterMap cfbOf
+  let specHolds := known.length == fb.length &&
+    (if endStream then endStreamHolds dbg doc known else errorHolds dbg doc known)
+  let wellFormed := if endStream then endStreamOK dbg doc else errorOK dbg doc
+  -- the server's own documents are values of the encoder model within the theorem's hypotheses
+  let own := if kind == "own" then ownImage endStream dbg doc else (true, "")
+  let holds := specHolds && genHolds.1
+  { agree := mCls == sortStrings fb && !oracleMissing && own.1, holds := holds,
+    nontrivial := true, model := toJson mCls,
+    why := if holds then (if own.1 then (if oracleMissing then "debug oracle has no entry for a comparison the model reaches" else "") else "own document: " ++ own.2)
+      else if !genHolds.1 then genHolds.2
+      else s!"well-formed={wellFormed}, must flag {reprStr (if endStream then mustFlagEndStream doc else mustFlagError doc)}, feedback {fb}",
+    cls := cls }
+
 def handle : Handler := fun op inp impl =>
   if !(isNull (field impl "panic")) then
     { agree := false, holds := false, why := "panic on arbitrary input: " ++ str (field impl "panic") } else
@@ -144,22 +306,7 @@ def handle : Handler := fun op inp impl =>
     { agree := agree && renderAgree && (detailsBin.isSome == (nDetails > 0)), holds := holds, nontrivial := hyp,
       model := Json.mkObj [("block", hex mBlock), ("examined", model)], why := why,
       cls := if !hyp then "hypothesis-violated" else if noEdgeSpace msg then "plain" else "edge-space" }
-  | "cerr" | "cend" =>
-    let kind := str (field inp "kind")
-    let fb := strList (field impl "fb")
-    let other := fb.filter (·.startsWith "other:")
-    let (holds, why) : Bool × String :=
-      if !other.isEmpty then (true, "")
-      else if kind == "own" then
-        (fb.isEmpty, s!"feedback on a well-formed document written by the repository's own server: {fb}")
-      else if kind.startsWith "mut:" then
-        (!fb.isEmpty, s!"injected malformation {kind} not reported")
-      else (true, "")
-    -- no Lean model of the JSON examiners (implementation half only): agreement is limited to
-    -- the classifier knowing every message
-    { agree := other.isEmpty, holds := holds, nontrivial := kind != "random", model := Json.null,
-      why := if holds then (if other.isEmpty then "" else s!"unclassified message {other}") else why,
-      cls := if kind.startsWith "mut:" then (if fb.contains (kind.drop 4).toString then "mut-exact-class" else "mut-other-class") else kind }
+  | "cerr" | "cend" => judgeJSON (op == "cend") (str (field inp "kind")) impl
   | "serve" =>
     let fb := strList (field impl "fb")
     let msg := unhex (str (field inp "msg"))
